@@ -131,6 +131,18 @@ def scenarios():
                 ps(sel(x for x in X if x.s == f's{c}')), ps(sel(x for x in X if x.p == (a, c)[b])), ps(sel(x for x in X if x.p == (c - a) // 2 ** a)),
                 ps(sel(x for x in X if x.p == (c if not b and a else 0))))
     add('expressions built from outer names only', outer_exprs, ([5], [6], [4], [5], [5], [1], [5], [1], [2], [5]))
+    def fstring_fields():
+        t = '0'; n = 3; w = 4
+        res = sel(f'{x.s}{t!r}' for x in X if x.p < 2)
+        return (ps(sel(x for x in X if x.s == f's{t!r}')), ps(sel(x for x in X if x.s + "'0'" == f'{x.s}{t!r}' and x.p < 2)), ps(sel(x for x in X if x.s == f's{n:>1}')),
+                ps(sel(x for x in X if x.s == f's{n:<{w}}'.strip())), res if isinstance(res, _Rejected) else sorted(res), ps(sel(x for x in X if x.s == 's' + f'{n:{1}}')),
+                ps(sel(x for x in X if x.s == f's{t!a}' or x.s == f'{"s"!s}{n}')))
+    add('replacement fields of f-strings with conversions and format specs', fstring_fields, ([], [0, 1], [3], [3], ["s0'0'", "s1'0'"], [3], [3]))
+    def wrapped_same_code():
+        f = lambda a: (lambda x: x.p != a)              # ONE code object as a filter of an inner query and again of the query built over it
+        inner = X.select().filter(f(1))
+        return ps(orm.select(x for x in inner).filter(f(2))), ps(orm.select(x for x in X.select().filter(f(0)).filter(f(1))).filter(f(2)).filter(f(3)))
+    add('one code object filters an inner query and the query built over it', wrapped_same_code, ([0, 3, 4, 5, 6, 7], [4, 5, 6, 7]))
     def outer_objects():
         o = types.SimpleNamespace(v=2, f=lambda k: k * 3, items=[types.SimpleNamespace(z=7)])
         return (ps(orm.select(x for x in X if x.p == o.v)), ps(orm.select(x for x in X if x.p == o.f(2))), ps(orm.select(x for x in X if x.p == o.items[0].z)),
